@@ -65,6 +65,20 @@ func (p Payload) bytes() []byte {
 		for i := range b {
 			b[i] = byte(i / 3)
 		}
+	case "longperiod":
+		// an incompressible block repeated at a long distance: matches sit exactly at / around window and length limits
+		pers := []int{8191, 8192, 8193, 8194, 4095, 4096, 4097, 264, 265, 32768, 65535, 65536}
+		per := pers[int(next())%len(pers)]
+		if per > p.Len && p.Len > 0 {
+			per = p.Len
+		}
+		pat := make([]byte, per)
+		for i := range pat {
+			pat[i] = next()
+		}
+		for i := range b {
+			b[i] = pat[i%per]
+		}
 	case "text":
 		words := []string{"alpha ", "beta ", "gamma ", "delta ", "hdf5 ", "chunk ", "0000", "\x00\x00\x00\x01"}
 		var sb strings.Builder
@@ -114,10 +128,17 @@ func genCase(t *rapid.T) Case {
 	c := Case{Filters: rapid.SliceOfN(rapid.Custom(genFilter), 0, 4).Draw(t, "filters")}
 	maxLen := vt.N(1<<16, 1<<20)
 	c.Payload = Payload{
-		Kind: rapid.SampledFrom([]string{"random", "const", "period", "ramp", "text"}).Draw(t, "kind"),
+		Kind: rapid.SampledFrom([]string{"random", "const", "period", "ramp", "text", "longperiod"}).Draw(t, "kind"),
 		Len: rapid.OneOf(rapid.IntRange(0, 64), rapid.IntRange(0, 600), rapid.IntRange(0, 5000), rapid.SampledFrom([]int{0, 1, 2, 3, 4, 7, 8, 9, 15, 16, 17, 255, 256, 257, 4095, 4096, 4097}),
 			rapid.IntRange(0, maxLen)).Draw(t, "len"),
 		Seed: rapid.IntRange(0, 1<<20).Draw(t, "seed"),
+	}
+	switch {
+	case c.Payload.Kind == "longperiod":
+		c.Payload.Len = rapid.SampledFrom([]int{16390, 16500, 17000, 20000, 66000}).Draw(t, "longlen")
+	case c.Payload.Kind == "const" && rapid.IntRange(0, 24).Draw(t, "huge") == 0:
+		// extreme compression ratios (> 1000:1): 1-4 MiB of one byte value
+		c.Payload.Len = rapid.SampledFrom([]int{1 << 20, 1<<20 + 1, 3 << 20, 1 << 22}).Draw(t, "hugelen")
 	}
 	hasF := false
 	for _, f := range c.Filters {
@@ -129,6 +150,9 @@ func genCase(t *rapid.T) Case {
 		// corruption cases: Fletcher-32 outermost (applied last), as the checksum then covers exactly the stored bytes
 		c.Corrupt = rapid.Bool().Draw(t, "corrupt")
 		c.CSeed = rapid.IntRange(0, 1<<20).Draw(t, "cseed")
+		if c.Payload.Len > 1<<17 {
+			c.Corrupt = false // corruption sweeps over megabyte payloads add cost, not coverage
+		}
 		if c.Corrupt && (len(c.Filters) == 0 || c.Filters[len(c.Filters)-1].K != "fletcher") {
 			if len(c.Filters) == 4 {
 				c.Filters = c.Filters[:3]
@@ -287,7 +311,7 @@ func run(c Case) vt.Verdict {
 			}
 		} else {
 			s := uint32(c.CSeed)*2654435761 + 7
-			for i := 0; i < 96; i++ {
+			for i := 0; i < vt.N(24, 96); i++ {
 				s = s*1664525 + 1013904223
 				positions = append(positions, int(s>>8)%n)
 			}
@@ -471,7 +495,7 @@ func runE2E(e E2E) vt.Verdict {
 
 func TestProp(t *testing.T) {
 	vt.Run(t, prop,
-		vt.Sub[Case]{Prop: prop, Name: "pipeline", Gen: genCase, Run: run, Classify: classify}.WithBudget(5000, 40000),
+		vt.Sub[Case]{Prop: prop, Name: "pipeline", Gen: genCase, Run: run, Classify: classify}.WithBudget(2500, 30000),
 		vt.Sub[E2E]{Prop: prop, Name: "e2e", Gen: genE2E, Run: runE2E, Classify: func(e E2E) (bool, []string) { return len(e.Opts) >= 2, nil }}.WithBudget(300, 3000),
 	)
 }
